@@ -80,6 +80,7 @@ func (w *World) verifyCone(roots []*Contract, lemmas []*Lemma, sv *Solver, verbo
 		o      *Oblig
 		smt    string
 		pruned string
+		light  string
 	}
 	var jobs []job
 	for _, fr := range frs {
@@ -89,7 +90,7 @@ func (w *World) verifyCone(roots []*Contract, lemmas []*Lemma, sv *Solver, verbo
 		ix := buildSliceIndex(fr.Decls, fr.declOwner, fr.axioms)
 		for i := range fr.Obls {
 			o := &fr.Obls[i]
-			jobs = append(jobs, job{fr, o, ix.smtText(o, false), ix.smtText(o, true)})
+			jobs = append(jobs, job{fr, o, ix.smtText(o, false), ix.smtText(o, true), ix.smtTextLight(o)})
 		}
 	}
 	rr.Results = make([]OblResult, len(jobs))
@@ -102,7 +103,7 @@ func (w *World) verifyCone(roots []*Contract, lemmas []*Lemma, sv *Solver, verbo
 			defer wg.Done()
 			defer func() { <-sem }()
 			j := jobs[i]
-			r := sv.solveVariants(j.pruned, j.smt, j.o.Canary)
+			r := sv.solveVariants3(j.light, j.pruned, j.smt, j.o.Canary)
 			rr.Results[i] = OblResult{O: j.o, R: r, SMT: j.smt}
 		}(i)
 	}
